@@ -624,6 +624,62 @@ func runC08(c *cli.Ctx) error {
 		return err
 	}
 
+	// concatenation ambiguity: the same bytes split differently over name / const values / help / label names
+	w = emit.NewWriter(c.Out, "C08", "concat")
+	splits := func(s string) [][2]string {
+		var out [][2]string
+		for i := 1; i <= len(s); i++ {
+			out = append(out, [2]string{s[:i], s[i:]})
+		}
+		return out
+	}
+	for i := 0; i < 150*c.Scale; i++ {
+		var colls [][]rawDesc
+		mode := r.Intn(4)
+		base := pick(r, []string{"m_a_b", "ab12", "m\xc3\xa9x"})
+		for k := 0; k < 2+r.Intn(2); k++ {
+			var d rawDesc
+			switch mode {
+			case 0: // name | value
+				sp := splits(base)
+				x := sp[r.Intn(len(sp))]
+				d = rawDesc{fq: x[0], help: "h", consts: map[string]string{"a": x[1]}}
+			case 1: // value | value
+				sp := splits(base)
+				x := sp[r.Intn(len(sp))]
+				d = rawDesc{fq: "m", help: "h", consts: map[string]string{"a": x[0], "b": x[1]}}
+			case 2: // help | const label name
+				sp := splits("hab")
+				x := sp[r.Intn(len(sp))]
+				d = rawDesc{fq: "m", help: x[0], consts: map[string]string{}}
+				if x[1] != "" {
+					d.consts[x[1]] = fmt.Sprint(k)
+				} else {
+					d.consts = map[string]string{}
+					d.vars = []string{"v" + fmt.Sprint(k)}
+				}
+			default: // label name | label name, const or variable
+				sp := splits("abcd")
+				x := sp[r.Intn(len(sp)-1)]
+				d = rawDesc{fq: "m", help: "h", consts: map[string]string{x[0]: fmt.Sprint(k)}, vars: []string{x[1]}}
+				if r.Bool() {
+					d.consts[x[1]] = "z"
+					d.vars = nil
+				}
+			}
+			colls = append(colls, []rawDesc{d})
+		}
+		cs := c08Case{pedantic: r.Bool(), colls: colls}
+		for k := range colls {
+			cs.ops = append(cs.ops, op{kind: 0, c: k})
+		}
+		cs.ops = append(cs.ops, op{kind: 2}, op{kind: 1, c: r.Intn(len(colls))}, op{kind: 0, c: r.Intn(len(colls))}, op{kind: 2})
+		addCase(w, cs, []string{fmt.Sprintf("concat:mode%d", mode)})
+	}
+	if err := w.Flush(); err != nil {
+		return err
+	}
+
 	// known finding dimhash-0xff: the separator byte inside a help string
 	w = emit.NewWriter(c.Out, "C08", "known-dimhash-0xff")
 	cs := c08Case{colls: [][]rawDesc{
